@@ -4,6 +4,7 @@ import (
 	"go/ast"
 	"go/parser"
 	"go/token"
+	"go/types"
 	"path/filepath"
 	"strconv"
 	"strings"
@@ -265,12 +266,39 @@ func runC05(w *World, r *Report) {
 			r.Fail("R5", "process-killer/"+shortFn(fnID(outermost(f)))+"/"+kind, posOf(in), "%s is reachable from the transaction entry points (the SPOE worker has no recover): a transaction could take the engine process down", kind)
 		})
 	}
+	// values decoded from the SPOE message are converted with checked (comma-ok) type
+	// assertions only: a mistyped or NULL argument must not panic the handler
+	nOK, nAll := 0, 0
+	for _, f := range names {
+		if fnPkgPath(f) != pkgRouting {
+			continue
+		}
+		Instrs(f, func(in ssa.Instruction) {
+			ta, ok := in.(*ssa.TypeAssert)
+			if !ok {
+				return
+			}
+			nAll++
+			if ta.CommaOk {
+				nOK++
+				return
+			}
+			killers++
+			r.Fail("R5", "process-killer/"+shortFn(fnID(outermost(f)))+"/unchecked-type-assertion", ta.Pos(), "unchecked type assertion %s.(%s) in the SPOE message boundary: a mistyped argument panics the handler (no recover)", trunc(Path(ta.X), 60), ta.AssertedType)
+		})
+	}
+	if nAll == 0 {
+		r.Undec("R5", "process-killer/message-boundary-type-assertions", token.NoPos, "no type assertion found in the routing package on the transaction path (extractArg moved?)")
+	} else if nOK == nAll {
+		r.Hold("R5", "process-killer/message-boundary-type-assertions", token.NoPos, nAll, "all %d type assertions of the routing package on the transaction path are comma-ok", nAll)
+	}
 	if killers == 0 {
 		r.Hold("R5", "process-killer/none-on-transaction-path", token.NoPos, len(txnReach), "no panic/log.Panic/log.Fatal/os.Exit in the %d lunar functions reachable from processRequest/processResponse/OnError", len(txnReach))
 	}
 	r.Extra["call_graph"] = map[string]int{"reachable_from_entry_points": len(reach), "reachable_from_transaction_entries": len(txnReach)}
 
 	c05Detector(w, r)
+	c05OnlyValidatedFlowsLoaded(w, r)
 	// R8 shared interpreter safety conditions
 	r.Borrow(w, runC04, map[string]string{"R3": "R8", "R6": "R8"})
 	r.Min("R1", 5)
@@ -485,4 +513,35 @@ func dominatedByAny(in ssa.Instruction, cs []ssa.CallInstruction) bool {
 		}
 	}
 	return false
+}
+
+// c05OnlyValidatedFlowsLoaded: GetFlows hands the builder only flow
+// representations that were read and validated successfully.
+func c05OnlyValidatedFlowsLoaded(w *World, r *Report) {
+	gf := w.Fn(pkgSCfg, "GetFlows")
+	if gf == nil {
+		r.Undec("R2", "GetFlows", token.NoPos, "function not found")
+		return
+	}
+	n := 0
+	Instrs(gf, func(in ssa.Instruction) {
+		mu, ok := in.(*ssa.MapUpdate)
+		if !ok || !strings.HasSuffix(Path(mu.Map), "makemap") && !strings.Contains(Path(mu.Map), "flows") {
+			return
+		}
+		if _, isFlow := mu.Map.Type().Underlying().(*types.Map); !isFlow || !strings.Contains(mu.Map.Type().String(), "FlowRepI") {
+			return
+		}
+		n++
+		rels := Rels(mu.Block())
+		opV, _ := FindRel(rels, func(v ssa.Value) bool { return isCallTo0(v, "config.validateFlowRepresentation") }, isNilConst)
+		opR, _ := FindRel(rels, func(v ssa.Value) bool {
+			return strings.HasSuffix(Path(v), "#1") && strings.Contains(Path(v), "ReadStreamFlowConfig(")
+		}, isNilConst)
+		r.Check(opV == "==" && opR == "==", "R2", "GetFlows/only-validated-flows-are-loaded", posOf(mu),
+			"a flow representation is added to the result only when reading it (err %q nil) and validateFlowRepresentation (err %q nil) succeeded", opR, opV)
+	})
+	if n != 1 {
+		r.Undec("R2", "GetFlows/store", gf.Pos(), "expected one store into the flows map, found %d", n)
+	}
 }
